@@ -222,8 +222,8 @@ PROPS['C19']['functions'].append('flipdot_testing::virtual_sign_bus::VirtualSign
 
 PROPS['C20'] = {
     'level': 'proof',
-    'kani': [{'package': 'flipdot-serial', 'harnesses': [H('c20_configure_port', covers=4), H('c20_serial_sign_bus_try_new', covers=2)]},
-             {'package': 'flipdot-testing', 'harnesses': [H('c20_odk_try_new', covers=2)]}],
+    'kani': [{'package': 'flipdot-serial', 'harnesses': [H('c20_configure_port', covers=5), H('c20_serial_sign_bus_try_new', covers=3)]},
+             {'package': 'flipdot-testing', 'harnesses': [H('c20_odk_try_new', covers=3)]}],
     'functions': ['flipdot_serial::serial_port::configure_port', 'flipdot_serial::SerialSignBus::try_new', 'flipdot_testing::Odk::try_new',
                   'serial_core::SerialPort::reconfigure (external crate, executed as is by Kani, not assumed)'],
     'assumptions': [A_TOOLS, A_DEBUG,
